@@ -51,3 +51,12 @@ Theorem C01_resize_total : forall b nc nr cc cr, BInv b -> 1 <= nc -> 1 <= nr ->
 Proof. exact buf_resize_ok'. Qed.
 Check C01_resize_total : forall b nc nr cc cr, BInv b -> 1 <= nc -> 1 <= nr -> (nc = bcols b -> cr < Nat.max (brows b) nr) -> exists b' cc' cr', buf_resize b nc nr cc cr = Ok (b', (cc', cr')) /\ BInv b' /\ bcols b' = nc /\ brows b' = nr /\ blimit b' = blimit b /\ trim_needed b' = true /\ cr' < nr /\ (nc <> bcols b -> cc' < nc) /\ (nc = bcols b -> cc' = cc).
 Print Assumptions C01_resize_total.
+
+From Avt Require Import Gen.AccFns Gen.RestFns Proofs.C04Wrap.
+(** util::TextCollector never panics either (Proofs/C04Wrap.v, on the regenerated collector functions of Gen/AccFns.v / Gen/RestFns.v) *)
+(** TextCollector::new, any list of feed_str / resize (sizes >= 1) calls, then flush: every call returns *)
+Theorem C01_collector : forall c r l ks, 1 <= c -> 1 <= r -> Forall ccall_ok ks -> exists os fin, collector_session (vt_new c r l) ks = Ok (os, fin).
+Proof. exact C01_collector_session. Qed.
+Check C01_collector : forall c r l ks, 1 <= c -> 1 <= r -> Forall ccall_ok ks -> exists os fin, collector_session (vt_new c r l) ks = Ok (os, fin).
+Print Assumptions C01_collector.
+
